@@ -32,6 +32,9 @@ and whether it returned; channel occupancy is the difference of two counters):
 * `c05_network_runs_are_finite`: every run has at most `n·(2N+1)` steps;
 * `c05_network_complete`: a run that cannot be extended ends with every process returned after
   having created and forwarded exactly `N` tasks (nothing is lost, nothing is left in flight).
+* `c05_network_deadlock_root_cause`: for *any* stream lengths, a run that ends with an unreturned process
+  contains an abandoned port (a returned consumer that left ≥ B items of an unreturned producer unread):
+  F20's mechanism is the only way such a network fails to complete.
 Negatives at network level: `c05_network_unbalanced_deadlocks` (F20: a process stops reading at the
 first closed in-port; the other upstream then blocks forever), `c05_network_needs_buffer` (F18, B = 0).
 
@@ -113,6 +116,18 @@ theorem c05_network_complete {n : Nat} (net : Net n) (N : Nat) (hbal : balanced 
   exact ⟨ht, hinv.tm v ht⟩
 
 open SciVerif.Net in
+/-- without any assumption on stream lengths: whenever a run of an acyclic network with buffer ≥ 1 ends
+with an unreturned process, there is an *abandoned port* — an unreturned process `v` and a consumer `w`
+of `v` that has already returned while at least `B` of `v`'s items were still unread (`w` stopped at
+another, shorter in-port). The abandoned-port situation of F20 is thus the only way a scipipe network
+can fail to run to completion. -/
+theorem c05_network_deadlock_root_cause {n : Nat} (net : Net n) (hac : acyclic net) (hB : 1 ≤ net.B)
+    (ls : List (Lbl n)) (s : NSt n) (hr : run net (init n) ls = some s) (hmax : stuck net s)
+    (v0 : Fin n) (hv0 : s.term v0 = false) :
+    ∃ v w, v ∈ net.ins w ∧ s.term v = false ∧ s.term w = true ∧ s.c w + net.B ≤ s.f v :=
+  stuck_root_cause net hac hB s (run_inv0 net ls _ _ (inv0_init net) hr) hmax v0 hv0
+
+open SciVerif.Net in
 /-- two sources feeding one process (diamond without the top) -/
 def netJoin (a b B : Nat) : Net 3 :=
   { ins := fun v => if v.val = 2 then [⟨0, by omega⟩, ⟨1, by omega⟩] else [],
@@ -156,6 +171,7 @@ end SciVerif.C05
 #print axioms SciVerif.C05.c05_network_no_deadlock
 #print axioms SciVerif.C05.c05_network_runs_are_finite
 #print axioms SciVerif.C05.c05_network_complete
+#print axioms SciVerif.C05.c05_network_deadlock_root_cause
 #print axioms SciVerif.C05.c05_network_unbalanced_deadlocks
 #print axioms SciVerif.C05.c05_network_needs_buffer
 #print axioms SciVerif.C05.c05_run_waits_for_driver_and_sink
